@@ -313,6 +313,19 @@ theorem text_padding_invariant (e : ParseEnv) (lines : List String) (pad : Strin
       rw [ih, line_padding_invariant e l _ _ (hp l).1 (hp l).2]
   rw [parseLines_eq, parseLines_eq, hm]
 
+/-- a line of white space only – whatever the characters, however many – is skipped: it is the identity on the
+    configuration (with `bad_line_identity`) -/
+theorem blank_line_skip (e : ParseEnv) (raw : String) (h : ∀ c ∈ raw.toList, Py.isSpace c = true) :
+    parseLine e raw = .skip := by
+  have hs : Py.strip raw = Py.strip "" := by
+    simp only [Py.strip]
+    rw [Py.stripL_all _ _ h]
+    rfl
+  have he : parseLine e "" = .skip := by
+    delta parseLine
+    rfl
+  rw [line_congr e raw "" hs, he]
+
 example : parseLine ⟨"/h", fun _ => none⟩ "  \tdeny rm -rf * \"no\"  " = parseLine ⟨"/h", fun _ => none⟩ "deny rm -rf * \"no\"" ∧
     parseLine ⟨"/h", fun _ => none⟩ "deny rm -rf * \"no\"" ≠ .skip := by decide +kernel
 
